@@ -79,7 +79,7 @@ def file_content(gen):
         return by, layout['fields'], {'model': model, 'layout': layout}
     if world == 'lis':
         from worlds import lis_logical
-        model = lis_logical.gen_model(rng, max_frames=gen.get('frames', 40), names_pool=gen.get('names'), small_pr=gen.get('small_pr', False), huge=gen.get('huge', False), tif_pad=gen.get('tif_pad', False), tape_marks=gen.get('tape_marks', False))
+        model = lis_logical.gen_model(rng, max_frames=gen.get('frames', 40), names_pool=gen.get('names'), small_pr=gen.get('small_pr', False), huge=gen.get('huge', False), tif_pad=gen.get('tif_pad', False), tape_marks=gen.get('tape_marks', False), same_file_passes=gen.get('same_file_passes', False))
         if gen.get('variant'):
             model = vary(world, model, gen['variant'])
         by, layout = lis_logical.build(model)
@@ -114,6 +114,13 @@ def materialise(files, in_dir):
     """Writes the input tree. Returns {relpath: {'size', 'damaged' (fault changed bytes), 'healthy_native' ...}}."""
     meta = {}
     for spec in files:
+        if spec.get('dangling'):
+            # a directory entry that is neither a file nor a directory once links are followed: a link whose target was moved
+            # away, or a link to itself.  It is not an input file.
+            p = os.path.join(in_dir, spec['path'])
+            os.makedirs(os.path.dirname(p), exist_ok=True)
+            os.symlink(p if spec['dangling'] == 'loop' else os.path.join(in_dir, '..', 'archive', 'gone-' + os.path.basename(p)), p)
+            continue
         by, fields, info = file_content(spec['gen'])
         original = by
         if spec.get('faults'):
@@ -152,7 +159,8 @@ def list_inputs(in_dir, recurse):
     for dirpath, dirnames, filenames in os.walk(in_dir):
         dirnames.sort()
         for n in sorted(filenames):
-            out.append(os.path.relpath(os.path.join(dirpath, n), in_dir))
+            if os.path.isfile(os.path.join(dirpath, n)):          # follows links; a dangling link is not an input file
+                out.append(os.path.relpath(os.path.join(dirpath, n), in_dir))
         if not recurse:
             break
     return sorted(out)
@@ -173,6 +181,9 @@ def _run_in_child(spec):
         # the tool is started inside the directory that holds the input tree and given relative paths
         os.chdir(root)
         in_dir, out_dir = 'in', os.path.join(spec['name'], 'out')
+    if scenario.get('out_inside'):
+        # the output directory lies inside the input tree and does not exist yet (tdlistolas -r data/ data/LAS/)
+        out_dir = os.path.join(in_dir, scenario['out_inside'])
     conv_mod_name, conv_fn_name = CONVERTERS[scenario['converter']]
     conv_mod = importlib.import_module(conv_mod_name)
     fn = getattr(conv_mod, conv_fn_name)
@@ -356,7 +367,12 @@ class BatchRun:
         res = self.runner.exec_in_child(_run_in_child, spec, timeout=100.0)
         if 'harness_error' in res:
             raise RuntimeError('batch run failed in the harness: ' + res['harness_error'])
-        res['tree'] = read_tree(os.path.join(self.root, name, 'out'))
+        if self.scenario.get('out_inside'):
+            inside = os.path.join(self.root, 'in', self.scenario['out_inside'])
+            res['tree'] = read_tree(inside)
+            shutil.rmtree(inside, ignore_errors=True)        # the input tree is pristine again for the next run
+        else:
+            res['tree'] = read_tree(os.path.join(self.root, name, 'out'))
         return res
 
     def cleanup(self):
